@@ -332,6 +332,8 @@ type SymbolValidator struct {
 	errorz.ErrorHolderImpl
 	typeStack []SymbolTypes
 	onDeck    SymbolTypes
+	// inSetFunction values of the enclosing queries, pushed while a sub-query's own predicate is validated
+	setFunctionStack []bool
 }
 
 func (visitor *SymbolValidator) VisitSetFunctionNodeStart(_ *SetFunctionNode) {
@@ -363,6 +365,9 @@ func (visitor *SymbolValidator) VisitUntypedSymbolNode(node *UntypedSymbolNode) 
 		visitor.typeStack = append([]SymbolTypes{visitor.symbolTypes}, visitor.typeStack...)
 		visitor.symbolTypes = visitor.onDeck
 		visitor.onDeck = nil
+		// the sub-query is the operand of a set function, its own predicate is not
+		visitor.setFunctionStack = append([]bool{visitor.inSetFunction}, visitor.setFunctionStack...)
+		visitor.inSetFunction = false
 	}
 }
 
@@ -379,5 +384,7 @@ func (visitor *SymbolValidator) VisitUntypedSubQueryNodeEnd(*UntypedSubQueryNode
 	if !visitor.HasError() {
 		visitor.symbolTypes = visitor.typeStack[0]
 		visitor.typeStack = visitor.typeStack[1:]
+		visitor.inSetFunction = visitor.setFunctionStack[0]
+		visitor.setFunctionStack = visitor.setFunctionStack[1:]
 	}
 }
